@@ -20,7 +20,7 @@ func c19Main(r *hx.Run) {
 	if r.Thorough() {
 		pb = 2
 	}
-	for _, k := range []string{"shutdown-vs-reconnect", "shutdown-vs-browse", "shutdown-in-retry-sleep", "announce-vs-reconnect", "double-disconnect"} {
+	for _, k := range []string{"shutdown-vs-reconnect", "shutdown-vs-browse", "shutdown-in-retry-sleep", "shutdown-at-retry-wakeup", "announce-vs-reconnect", "double-disconnect"} {
 		scens = append(scens, hx.Scenario{Name: "c19:" + k, Body: mdnsscen.RaceBody(k), Bounds: simrt.B(pb, 0, 0), Cfg: simrt.Config{MaxSteps: 100000, BranchAfterMark: true}})
 	}
 	if r.Worker {
